@@ -43,7 +43,7 @@ MIN_COUNTERS = {
                  'rt_programs_finished': 2000, 'nrt_programs': 20000},
 }
 FEATURES = ('tempo', 'cond', 'flow', 'call', 'embed', 'resched', 'beats', 'reenter',
-            'replay')
+            'replay', 'yinf')
 
 
 def plan(tier, seed):
@@ -91,6 +91,10 @@ def nontrivial(prog):
 def report_fails(run, acc, mode, prog):
     seen = set()
     for fl in run.fails:
+        if fl['kind'] == 'resumed-after-yielding-inf':
+            acc.violation(f'C05/resumed-after-yielding-inf/{mode}',
+                          {'fail': fl, 'case': run.tag, 'program': prog})
+            continue
         if fl['kind'] == 'resumed-without-release':
             continue        # C11's subject (the times of that routine are re-synchronised)
         if fl['kind'] == 'seconds':
